@@ -1186,6 +1186,40 @@ variant("close-index-loop",
 		}""", """				d.statusCb(rcpt, nil)
 			}
 		}"""))
+variant("hello-arg-indexbyte",
+  ("parse.go", """	if idx := strings.IndexRune(arg, ' '); idx >= 0 {
+		domain = arg[:idx]
+	}""", """	if idx := strings.IndexByte(arg, ' '); idx >= 0 {
+		domain = arg[:idx]
+	}"""))
+variant("reversepath-cutprefix",
+  ("parse.go", """	if strings.HasPrefix(p.s, "<>") {
+		p.s = strings.TrimPrefix(p.s, "<>")
+		return "", nil
+	}""", """	if rest, ok := strings.CutPrefix(p.s, "<>"); ok {
+		p.s = rest
+		return "", nil
+	}"""))
+variant("readbyte-early-return",
+  ("parse.go", """	ch, ok := p.peekByte()
+	if ok {
+		p.s = p.s[1:]
+	}
+	return ch, ok""", """	ch, ok := p.peekByte()
+	if !ok {
+		return 0, false
+	}
+	p.s = p.s[1:]
+	return ch, true"""))
+variant("expectbyte-no-else",
+  ("parse.go", """		if len(p.s) == 0 {
+			return fmt.Errorf("expected '%v', got EOF", string(ch))
+		} else {
+			return fmt.Errorf("expected '%v', got '%v'", string(ch), string(p.s[0]))
+		}""", """		if len(p.s) == 0 {
+			return fmt.Errorf("expected '%v', got EOF", string(ch))
+		}
+		return fmt.Errorf("expected '%v', got '%v'", string(ch), string(p.s[0]))"""))
 if sys.argv[1:] == ['--export']:
     out = [{"id": "benign-" + n, "edits": [{"file": f, "old": o, "new": w} for f, o, w in V[n]]} for n in V]
     json.dump(out, open('/verif/liveness/benign.json', 'w'), indent=1)
